@@ -506,4 +506,82 @@ class OpCopy(Op):"""),
             # Read a file-like object once, not once per operand.
             data = load_data(data)
 """),
+    # ---- legitimate changes named by the oracle review (DESIGN 10.9): each must stay quiet
+    dict(id="ok-cli-compact-separators", prop="C18", file="jsonpath/cli.py", expect="clean", count=3,
+         old="args.output, indent=indent)",
+         new='args.output, indent=indent, separators=None if indent else (",", ":"))'),
+    dict(id="ok-cli-indent-4", prop="C18", file="jsonpath/cli.py", expect="clean",
+         old="INDENT = 2", new="INDENT = 4"),
+    dict(id="ok-cli-trailing-newline", prop="C18", file="jsonpath/cli.py", expect="clean",
+         old="""    indent = INDENT if args.pretty else None
+    json.dump(matches, args.output, indent=indent)""",
+         new="""    indent = INDENT if args.pretty else None
+    json.dump(matches, args.output, indent=indent)
+    args.output.write("\\n")"""),
+    dict(id="ok-cli-expression-file-rstrip-newline", prop="C18", file="jsonpath/cli.py", expect="clean",
+         old="query = args.path_file.read().strip()",
+         new='query = args.path_file.read().rstrip("\\r\\n")'),
+    dict(id="ok-cli-opens-files-itself", prop="C18", file="jsonpath/cli.py", expect="clean",
+         old="""    indent = INDENT if args.pretty else None
+    json.dump(matches, args.output, indent=indent)""",
+         new="""    indent = INDENT if args.pretty else None
+    if args.output is not sys.stdout:
+        name = args.output.name
+        args.output.close()
+        with open(name, "w", encoding="utf-8") as fd:
+            json.dump(matches, fd, indent=indent)
+        return
+    json.dump(matches, args.output, indent=indent)"""),
+    dict(id="ok-finditer-eager", prop="C11", file="jsonpath/path.py", expect="clean",
+         old="""        for selector in self.selectors:
+            matches = selector.resolve(matches)
+
+        return matches""",
+         new="""        for selector in self.selectors:
+            matches = selector.resolve(matches)
+
+        return iter(list(matches))"""),
+    dict(id="ok-finditer-eager-c09", prop="C09", file="jsonpath/path.py", expect="clean",
+         old="""        for selector in self.selectors:
+            matches = selector.resolve(matches)
+
+        return matches""",
+         new="""        for selector in self.selectors:
+            matches = selector.resolve(matches)
+
+        return iter(list(matches))"""),
+    dict(id="ok-finditer-eager-c12", prop="C12", file="jsonpath/path.py", expect="clean",
+         old="""        for selector in self.selectors:
+            matches = selector.resolve(matches)
+
+        return matches""",
+         new="""        for selector in self.selectors:
+            matches = selector.resolve(matches)
+
+        return iter(list(matches))"""),
+    dict(id="ok-async-load-in-executor", prop="C08", file="jsonpath/path.py", expect="clean",
+         old="""        \"\"\"An async version of `finditer()`.\"\"\"
+        _data = load_data(data)
+
+        async def root_iter() -> AsyncIterable[JSONPathMatch]:
+            yield self.env.match_class(""",
+         new="""        \"\"\"An async version of `finditer()`.\"\"\"
+        import asyncio
+
+        if isinstance(data, IOBase):
+            _data = await asyncio.get_running_loop().run_in_executor(None, load_data, data)
+        else:
+            _data = load_data(data)
+
+        async def root_iter() -> AsyncIterable[JSONPathMatch]:
+            yield self.env.match_class("""),
+    dict(id="ok-patch-refuses-non-list-iterables", prop="C15", file="jsonpath/patch.py", expect="clean",
+         old="""        self.uri_decode = uri_decode
+        if ops:
+            self._load(ops)""",
+         new="""        self.uri_decode = uri_decode
+        if ops is not None and not isinstance(ops, (str, IOBase, list)):
+            raise JSONPatchError("expected a JSON Patch document or a list of operations")
+        if ops:
+            self._load(ops)"""),
 ]
